@@ -66,6 +66,22 @@ var commonScopes = map[string][]string{
 	"C20": {"services/controller", "services/attester", "strategies/", "services/beaconblockproposer", "services/blockrelay"},
 }
 
+// CommonExpl describes, for the evidence, the cross-cutting (.x) and taken-over (.y) rules that run for a property.
+func CommonExpl(id string) string {
+	out := ""
+	if sc := commonScopes[id]; sc != nil {
+		where := strings.Join(sc, ", ")
+		if len(sc) == 1 && sc[0] == "" {
+			where = "the whole module"
+		}
+		out += " Cross-cutting rules (.x) within " + where + ": no nested short declaration hides a result that is read after the block; no errors.Wrap of an error that is nil on every path; results that can be nil without an error are tested before use, and no result is used on the path where its call failed; no in-place removal at a loop index followed by the next index; no slot count re-typed as an epoch count (or back) without slotsPerEpoch, no integer ratio converted to floating point afterwards; no slice parameter sorted in place; wait groups balance, no fan-out under an errgroup context, coalesced requests keyed by the request; a guard before a submit/sign/send of a collection asks for non-empty, not for more than some number of elements; a closure that runs later from inside a loop does not share a variable declared outside the loop and assigned inside it; an integer quotient of two run-time quantities is not used as a modulus without a clamp."
+	}
+	if im := imports[id]; len(im) > 0 {
+		out += " Taken over (.y) from sibling properties that rely on the same code: " + strings.Join(im, ", ") + "."
+	}
+	return out
+}
+
 // Common runs the cross-cutting rules within the property's scope. They are instances of one mechanism each
 // (a value lost to a shadowed variable) that break whichever property lives in the code they occur in.
 func Common(id string, p *core.Prog, r *core.Report) {
